@@ -149,8 +149,7 @@ def run_case(case, ctx):
                 continue
             p.freeze()
             table = p.co_linetable if tname == "Code310" else p.co_lnotab
-            if isinstance(table, str):
-                table = table.encode("latin-1")
+            # a line table is binary data: a str would be re-encoded (UTF-8) by the writer, doubling every byte >= 0x80
             if not isinstance(table, (bytes, bytearray)):
                 ctx.violation("%s:freeze-leaves:%s" % (tname, type(table).__name__), "after freeze() the table is a %s for %s" % (type(table).__name__, mapping))
                 continue
